@@ -91,3 +91,17 @@ Definition inj_ref (r : ref) : mref :=
                                  | None => Raise TypeError end)
   | RType t => MType t
   end.
+
+(* ---------- boolean premises of the refinement theorems (Props/C02.v), evaluated on every generated case too *)
+(* cells of a column are normal forms of its type *)
+Definition cell_of (k : kind) (c : val) : bool :=
+  match k, c with
+  | KMixed, _ => true
+  | KFloat, VFlt _ => true
+  | KInt, VInt _ => true
+  | _, _ => false
+  end.
+(* the floats of a reference are binary64 values (odd mantissa below 2^53) *)
+Definition val_wf (v : val) : bool := match v with VFlt f => fl_wf f | _ => true end.
+Definition ref_wf (r : ref) : bool :=
+  match r with RScalar v => val_wf v | RSeq vs | RSet vs => forallb val_wf vs | _ => true end.
